@@ -44,7 +44,7 @@ type dispState struct {
 	tree     *config.EndpointPolicyTree
 	policies *sharedConfig.PoliciesConfig
 	early    int
-	kind     string            // fixed | strategy | concurrency : the early-answering remedy
+	kind     string            // fixed | strategy | concurrency | replay | cache : the early-answering remedy
 	url      map[string]string // endpoint letter (r: with retry remedy, n: without) -> URL
 	path     map[string]string
 }
@@ -56,6 +56,13 @@ type dispState struct {
 func earlyRemedy(kind, name string, status int) sharedConfig.Remedy {
 	r := sharedConfig.Remedy{Name: name, Enabled: true}
 	switch kind {
+	case "replay":
+		// stores a provider response with a relevant status + Retry-After and replays it to later requests
+		r.Config.ResponseBasedThrottling = &sharedConfig.ResponseBasedThrottlingConfig{
+			RetryAfterHeader: "retry-after", RetryAfterType: sharedConfig.RetryAfterRelativeSeconds,
+			RelevantStatuses: []int{status}}
+	case "cache":
+		r.Config.Caching = &sharedConfig.CachingConfig{TTLSeconds: 100000, MaxRecordSizeBytes: 1 << 20, MaxCacheSizeMegabytes: 100}
 	case "strategy":
 		r.Config.StrategyBasedThrottling = &sharedConfig.StrategyBasedThrottlingConfig{
 			AllowedRequestCount: 1, WindowSizeInSeconds: 3600, ResponseStatusCode: status}
@@ -84,11 +91,12 @@ func newDispatch(p *policyState, early int, kind string) (*dispState, error) {
 	d := &dispState{early: early, kind: kind,
 		path: map[string]string{"r": fmt.Sprintf("/d%d/orders", dispSeq), "n": fmt.Sprintf("/d%d/plain", dispSeq)}}
 	d.url = map[string]string{"r": dispHost + d.path["r"], "n": dispHost + d.path["n"]}
+	withRetry := []sharedConfig.Remedy{
+		earlyRemedy(kind, fmt.Sprintf("c17-%s-%d-r", kind, dispSeq), early),
+		{Name: fmt.Sprintf("c17-retry-%d", dispSeq), Enabled: true, Config: sharedConfig.RemedyConfig{Retry: p.cfg}},
+	}
 	endpoints := []sharedConfig.EndpointConfig{
-		{Method: "GET", URL: d.url["r"], Remedies: []sharedConfig.Remedy{
-			earlyRemedy(kind, fmt.Sprintf("c17-%s-%d-r", kind, dispSeq), early),
-			{Name: fmt.Sprintf("c17-retry-%d", dispSeq), Enabled: true, Config: sharedConfig.RemedyConfig{Retry: p.cfg}},
-		}},
+		{Method: "GET", URL: d.url["r"], Remedies: withRetry},
 		// an endpoint WITHOUT a retry remedy
 		{Method: "GET", URL: d.url["n"], Remedies: []sharedConfig.Remedy{
 			earlyRemedy(kind, fmt.Sprintf("c17-%s-%d-n", kind, dispSeq), early),
@@ -105,6 +113,12 @@ func newDispatch(p *policyState, early int, kind string) (*dispState, error) {
 	// fresh real plugin on this case's clock
 	svc.Remedies.RetryPlugin = p.plugin
 	d.tree, d.policies = tree, pc
+	if d.replays() {
+		// fresh real storing plugins on this case's clock
+		svc.Remedies.ResponseBasedThrottlingPlugin = remedies.NewResponseBasedThrottlingPlugin(p.clk)
+		svc.Remedies.CachingPlugin = remedies.NewCachingPlugin(p.clk)
+		return d, nil
+	}
 	if kind != "fixed" {
 		// warm-up: use up the quota / take the only slot of both endpoints
 		for _, ep := range []string{"r", "n"} {
@@ -118,6 +132,10 @@ func newDispatch(p *policyState, early int, kind string) (*dispState, error) {
 		}
 	}
 	return d, nil
+}
+
+func (d *dispState) replays() bool {
+	return d.kind == "replay" || d.kind == "cache"
 }
 
 func (d *dispState) request(p *policyState, id, seq, ep string, earlyHdr bool) lunarMessages.OnRequest {
@@ -164,7 +182,7 @@ func dispatchOp(st *caseState, w []string) string {
 		if !okk {
 			kind = "fixed"
 		}
-		if kind != "fixed" && kind != "strategy" && kind != "concurrency" {
+		if kind != "fixed" && kind != "strategy" && kind != "concurrency" && kind != "replay" && kind != "cache" {
 			return "bad-op"
 		}
 		if a := policyOp(st, append([]string{"pcfg"}, w[1:]...)); a != "ok" {
@@ -240,7 +258,8 @@ func dispatchOp(st *caseState, w []string) string {
 		b := p.base()
 		acts, err := runner.DispatchOnResponse(lunarMessages.OnResponse{
 			ID: proto.Dec(idE), SequenceID: proto.Dec(sE), Method: "GET", URL: d.url[ep], Status: int(status),
-			Headers: map[string]string{}, Time: p.clk.Now(),
+			Headers: map[string]string{"retry-after": "100000", "content-type": "text/plain"}, Body: "upstream",
+			Time: p.clk.Now(),
 		}, d.tree, &d.policies.Global, svc, dworker)
 		p.quiesce(b)
 		if err != nil {
